@@ -4,7 +4,9 @@ package main
 // function of Seed, the knobs and the invocation key, unless overridden in Over) and the scheduling
 // parameters of the background work.
 type Case struct {
-	Query  string          `json:"query"`
+	Query  string          `json:"query"`          // used when Tree is empty
+	Op     string          `json:"op,omitempty"`   // "" (query) | mutation
+	Tree   []Sel           `json:"tree,omitempty"` // structured form of the selection set (shrinkable)
 	Seed   uint64          `json:"seed"`
 	PAsync int             `json:"p_async"` // % of invocations resolved through Go or Batch
 	PBatch int             `json:"p_batch"` // % of the asynchronous ones that use Batch
@@ -18,6 +20,15 @@ type Case struct {
 	// WatchdogMs: the request is declared deadlocked after this long (0 = default 20 s).
 	WatchdogMs int    `json:"watchdog_ms,omitempty"`
 	Note       string `json:"note,omitempty"`
+}
+
+// Sel is one field selection: name(id: ID, Args) { Sub } ; Raw is a verbatim sub-selection.
+type Sel struct {
+	Name string `json:"name"`
+	ID   int    `json:"id"`
+	Args string `json:"args,omitempty"`
+	Sub  []Sel  `json:"sub,omitempty"`
+	Raw  string `json:"raw,omitempty"`
 }
 
 // Spec is the behaviour of one field invocation.
@@ -35,6 +46,7 @@ type Spec struct {
 type CaseResult struct {
 	OK         bool           `json:"ok"`
 	Kind       string         `json:"kind,omitempty"` // property | correspondence | crash | harness
+	Oracle     string         `json:"oracle,omitempty"` // response | batch | leak | deadlock | crash | model | harness
 	What       string         `json:"what,omitempty"`
 	FindingKey string         `json:"finding_key,omitempty"`
 	Fatal      bool           `json:"fatal,omitempty"` // the worker cannot continue (deadlock: goroutines are stuck)
